@@ -42,8 +42,10 @@ package scanner
 //@   assigns s.ch, s.offset, s.rdOffset, s.lineOffset, s.ErrorCount
 //@   ensures inv(s) && s.offset >= old(s.offset)
 //@   ensures !(s.ch == ' ' || s.ch == '\t' || s.ch == '\r' || (s.ch == '\n' && !s.insertSemi))
+//@   ensures [skipped-is-space] forall k in old(s.offset)..s.offset :: s.src[k] == ' ' || s.src[k] == '\t' || s.src[k] == '\n' || s.src[k] == '\r'
 //@ loop (*Scanner).skipWhitespace#1
 //@   invariant inv(s) && s.offset >= old(s.offset)
+//@   invariant forall k in old(s.offset)..s.offset :: s.src[k] == ' ' || s.src[k] == '\t' || s.src[k] == '\n' || s.src[k] == '\r'
 //@   decreases len(s.src) - s.offset
 //@
 //@ func (*Scanner).scanIdentifier
@@ -191,9 +193,12 @@ package scanner
 //@   ensures [op-text] t.Tok > ' ' && t.Tok != token.SEMICOLON && t.Tok < token.Token(len(token.tokens)) ==> s.offset == fileOff(s, t.Pos) + len(token.tokens[t.Tok]) &&
 //@             string(s.src[fileOff(s, t.Pos):s.offset]) == token.tokens[t.Tok]
 //@   ensures [comment-len] t.Tok == token.COMMENT ==> len(t.Lit) <= s.offset - fileOff(s, t.Pos)
+//@   ensures [gap-is-space] s.mode & ScanComments != 0 && old(s.unitVal) == "" ==>
+//@             (forall k in old(s.offset)..fileOff(s, t.Pos) :: s.src[k] == ' ' || s.src[k] == '\t' || s.src[k] == '\n' || s.src[k] == '\r')
 //@ loop (*Scanner).Scan#1
 //@   invariant inv(s) && fileSize(s.file) == len(s.src) && unitOK(s) && s.offset >= old(s.offset)
 //@   invariant s.offset == old(s.offset) ==> s.insertSemi == old(s.insertSemi) && s.unitVal == old(s.unitVal)
+//@   invariant s.mode & ScanComments != 0 ==> s.offset == old(s.offset)
 //@   decreases len(s.src) - s.offset
 //@
 //@ func (*Scanner).InitEx
